@@ -148,8 +148,10 @@ SQL_DDL = """
         batch_num_samp               NDARRAY,
         method_samp                  NDARRAY
     );
+"""
 
-    DELETE FROM checkpoint;
+SQL_DELETE = """
+    DELETE FROM checkpoint
 """
 
 
@@ -349,6 +351,9 @@ def save_calibrator_state(  # noqa: PLR0913
         cursor.execute(SQL_SAVE_USER_VERSION)
         cursor.executescript(SQL_DDL)
 
+        # replace the previous checkpoint inside the INSERT's transaction: executescript() commits as it goes, so a DELETE
+        # issued there would survive the rollback of a failed save
+        cursor.execute(SQL_DELETE)
         cursor.execute(
             SQL_SAVE_QUERY,
             (
